@@ -593,7 +593,8 @@ pub fn check_iter(ev: &Event, kind: u8, calls: &[bool], forget: bool, post: Opti
     }
     // ---- the finishing call: Iterator's provided methods must agree with what next/next_back would still yield
     let fin = match op { Op::Iterate { fin, .. } | Op::Into { fin, .. } => *fin, _ => 0 };
-    if fin != 0 && o.fin_ran && !(exhausted_seen && !fused) {
+    if fin == 8 { st.count("c12_consumer_panicked_holding_iterator"); }
+    if fin != 0 && fin != 8 && o.fin_ran && !(exhausted_seen && !fused) {
         let rem = &pre.ents[f..b];
         let same = |y: &Yield, e: &Ent| -> bool {
             let k_ok = match kind { IT_VALUES | IT_INTO_VALUES => y.k.is_none(), _ => y.k == Some(e.kuid) };
